@@ -88,7 +88,7 @@ def morton_cells(tier, parts):
                                   defines={"DIMS_IN": n, "IN_SCALAR_T": "size_t", "VERIF_USE_BMI2": 1},
                                   enforce="morton_alloc_size_%s" % which, replace=["round_pow2", "ipow", "morton_calculate_index"], unwind=66,
                                   extra_checks=["--unsigned-overflow-check"],
-                                  closes_loops="max_element stub loop over N (complete)", replay="morton"))
+                                  closes_loops="max_element stub loop over N (complete)", replay="alloc"))
     return cells
 
 
@@ -183,7 +183,7 @@ def hilbert_cells(tier, parts, kmax_quick=10, kmax_thorough=13):
                 cells.append(Cell("hilbert.alloc.%s.k%d" % (which, k), "hilbert", "h_hilbert_alloc_%s" % which, defines=d,
                                   enforce="hilbert_alloc_size_%s" % which, replace=["round_pow2", "ipow"], unwind=5, kind="bounded",
                                   bound="max extent in (2^%d, 2^%d]" % (k - 1, k), extra_checks=["--unsigned-overflow-check"],
-                                  closes_loops="max_element stub loop over N (complete)"))
+                                  closes_loops="max_element stub loop over N (complete)", replay="alloc"))
     return cells
 
 
